@@ -83,13 +83,17 @@ def _cases(walks, hosts, qstrings, per_step):
     return cases
 
 
-def _one_universe(ctx, tokens, maxkey, label, walk_limit, per_step, hlen, hn):
-    dot = ctx.path("c09.dot")
-    r = ctx.model_check("C09", cfg_text=_cfg(tokens, maxkey, extra=INVS), label="S:C09 %s (all histories)" % label,
-                        allow_zero=("SetItem",), args=["-dump", "dot,actionlabels", dot])
-    _, edges, init = graph.parse_dot(dot)
-    os.unlink(dot)
-    walks = graph.edge_cover(edges, init, max_len=16, limit=walk_limit)
+def _one_universe(ctx, tokens, maxkey, label, walk_limit, per_step, hlen, hn, model=True):
+    class _R(object):
+        distinct = 0
+    r, edges, walks = _R(), [], []
+    if model:
+        dot = ctx.path("c09.dot")
+        r = ctx.model_check("C09", cfg_text=_cfg(tokens, maxkey, extra=INVS), label="S:C09 %s (all histories)" % label,
+                            allow_zero=("SetItem",), args=["-dump", "dot,actionlabels", dot])
+        _, edges, init = graph.parse_dot(dot)
+        os.unlink(dot)
+        walks = graph.edge_cover(edges, init, max_len=16, limit=walk_limit)
     hosts, qt, hist = _tables(ctx, tokens, maxkey, hlen, hn)
     qfile = ctx.path("c09_queries_%s.json" % label.replace(" ", "_"))
     core.jdump(qt, qfile)
@@ -126,7 +130,7 @@ def run(ctx):
                              ctx.pick("{8}", "{10, 20}"), ctx.pick(50, 1000))
     if not ctx.quick:
         failing += _one_universe(ctx, ["fr", "co", "uk", "www", "muenchen", "nihon", "example"], 2, "7 realistic labels depth<=2 (random only)",
-                                 200, 100, "{10, 20, 30}", 3000)
+                                 200, 100, "{10, 20, 30}", 3000, model=False)
     ctx.exhaustive = not ctx.quick
     ctx.rule = ("histories: edge cover of the complete reachable graph of C09.tla (state = set of added hosts; 2 labels depth<=3 = 2^14 states, "
                 "3 labels depth<=2 = 2^12 states; quick replays the first walks of the cover, thorough all), plus TLC RandomSubset histories; "
